@@ -4,6 +4,8 @@ package rt
 
 import (
 	"fmt"
+	"math"
+	"os"
 
 	"github.com/sahandsafizadeh/qeep/component/layers"
 	"github.com/sahandsafizadeh/qeep/component/layers/activations"
@@ -60,7 +62,92 @@ func Nested(t *ref.T) any {
 // Leaf creates a fresh leaf tensor holding t's values. Ranks <= 4 go through
 // TensorOf on nested data (no other operation involved); higher ranks through
 // TensorOf(flat) + Reshape + ResetGradContext.
+//
+// An UNTRACKED tensor of rank 1..4 is, for 4 in 10 value sets (chosen by a hash of the values, so a case replays
+// identically), not built directly but obtained as a RESULT: Reshape of the flat data, Slice out of a padded tensor,
+// Concat of two parts, or directly but with NElems / Shape / Sum asked for first. By C08 such a result is a plain
+// untracked value, indistinguishable from a leaf; every check thereby also runs on operands that have a history.
 func Leaf(t *ref.T, tracked bool) (tensor.Tensor, error) {
+	if !tracked && len(t.Shape) >= 1 && len(t.Shape) <= 4 && len(t.Data) <= 4096 && !plainLeaves {
+		if x, err := derivedLeaf(t); x != nil || err != nil {
+			return x, err
+		}
+	}
+	return directLeaf(t, tracked)
+}
+
+var plainLeaves = os.Getenv("VERIF_PLAIN_LEAVES") != ""
+
+func derivedLeaf(t *ref.T) (tensor.Tensor, error) {
+	h := uint64(1469598103934665603)
+	for _, d := range t.Shape {
+		h = (h ^ uint64(d)) * 1099511628211
+	}
+	for i, v := range t.Data {
+		if i >= 8 {
+			break
+		}
+		h = (h ^ math.Float64bits(v)) * 1099511628211
+	}
+	touch := func(x tensor.Tensor) {
+		_ = x.NElems()
+		sh := x.Shape()
+		for i := range sh {
+			sh[i] = -7
+		}
+		_ = x.Sum()
+	}
+	n0 := t.Shape[0]
+	row := len(t.Data) / n0
+	switch (h >> 20) % 10 {
+	case 6: // Reshape of the flat data
+		f, err := tensor.TensorOf(append([]float64(nil), t.Data...), Conf(false))
+		if err != nil {
+			return nil, err
+		}
+		touch(f)
+		if len(t.Shape) == 1 {
+			return f.Flatten(0)
+		}
+		return f.Reshape(ref.CopyInts(t.Shape))
+	case 7: // Slice out of a tensor padded by one block before and after along dimension 0
+		shape := ref.CopyInts(t.Shape)
+		shape[0] = n0 + 2
+		p := ref.Full(shape, -123.5)
+		copy(p.Data[row:], t.Data)
+		src, err := directLeaf(p, false)
+		if err != nil {
+			return nil, err
+		}
+		touch(src)
+		return src.Slice([]tensor.Range{{From: 1, To: n0 + 1}})
+	case 8: // Concat of two parts along dimension 0
+		if n0 < 2 {
+			return nil, nil
+		}
+		cut := 1 + int(h>>40)%(n0-1)
+		sa, sb := ref.CopyInts(t.Shape), ref.CopyInts(t.Shape)
+		sa[0], sb[0] = cut, n0-cut
+		a, err := directLeaf(ref.New(sa, t.Data[:cut*row]), false)
+		if err != nil {
+			return nil, err
+		}
+		b, err := directLeaf(ref.New(sb, t.Data[cut*row:]), false)
+		if err != nil {
+			return nil, err
+		}
+		return tensor.Concat([]tensor.Tensor{a, b}, 0)
+	case 9: // built directly, statistics taken before first use
+		x, err := directLeaf(t, false)
+		if err == nil {
+			touch(x)
+		}
+		return x, err
+	}
+	return nil, nil
+}
+
+func directLeaf(t *ref.T, tracked bool) (tensor.Tensor, error) {
 	switch len(t.Shape) {
 	case 0:
 		return tensor.TensorOf(Nested(t).(float64), Conf(tracked))
